@@ -42,6 +42,9 @@ def run(ctx: Ctx) -> None:
                                      (METRICS, "Infidelity.evaluate"), (METRICS, "TraceDistance.evaluate")])
     rule_rep_dispatch(ctx)
     rule_metric_value(ctx)
+    from .c05 import rule_fid_shape, rule_counter_condition
+    rule_fid_shape(ctx)          # the stabilizer side of the cross-representation clause: Infidelity delegates to sfm.fidelity / inner_product
+    rule_counter_condition(ctx)
     rule_distance_whole_state(ctx)
     numeric.rule_hermitian_args(ctx, DMF, ["fidelity", "trace_distance"])
     numeric.rule_spectral_sqrt(ctx)
@@ -223,6 +226,7 @@ def rule_distance_whole_state(ctx: Ctx) -> None:
 
 
 KNOCKOUTS = [
+    Knockout("branches-selected-not-weighted-by-fidelity", "graphiq/metrics.py", sub_once("[p_i * sfm.fidelity(tableau, t_i) for p_i, t_i in rep_data.mixture]", "[p_i for p_i, t_i in rep_data.mixture if t_i == tableau]"), "weight.fidelity", "branch contribution"),
     Knockout("infidelity-returns-fidelity", "graphiq/metrics.py", sub_once("            self.log.append(1 - fid)\n\n        return 1 - fid", "            self.log.append(1 - fid)\n\n        return fid"), "metric.value", "returns / logs"),
     Knockout("infidelity-converts-to-wrong-rep", "graphiq/metrics.py", sub_once('                tmp_state.convert_representation("s")\n                rep_data = tmp_state.rep_data', '                tmp_state.convert_representation("dm")\n                rep_data = tmp_state.rep_data'), "metric.value", "converted"),
     Knockout("trace-distance-direct-on-stabilizer", "graphiq/metrics.py", sub_once('            if state.rep_type == "dm":\n                trace_distance', '            if state.rep_type == "s":\n                trace_distance'), "metric.value", "unconverted"),
